@@ -32,6 +32,18 @@ type Sched struct {
 	ended     int64
 	maxSteps  int64
 	stuck     string
+	enabled   map[string]bool
+	liveBy    map[string]int
+	maxLiveBy map[string]int
+	baseOf    map[int64]string
+}
+
+// MaxLive returns the highest number of simultaneously live tasks with the
+// given base name seen so far in this run.
+func (s *Sched) MaxLive(name string) int {
+	s.mu.Lock()
+	defer s.mu.Unlock()
+	return s.maxLiveBy[name]
 }
 
 type ptask struct {
@@ -111,8 +123,32 @@ func (s *Sched) park(point string, try func() bool) {
 	<-t.wake
 }
 
+// optInPoints are yield points that sit inside critical sections of their
+// callers in general; they are only honoured by checks that enable them.
+var optInPoints = map[string]bool{"multiapp-opened": true}
+
+// EnablePoint turns an opt-in yield point on for this run.
+func (s *Sched) EnablePoint(p string) {
+	s.mu.Lock()
+	if s.enabled == nil {
+		s.enabled = map[string]bool{}
+	}
+	s.enabled[p] = true
+	s.mu.Unlock()
+}
+
 // Yield is a scheduling point of the calling task.
-func (s *Sched) Yield(point string) { s.park(point, nil) }
+func (s *Sched) Yield(point string) {
+	if optInPoints[point] {
+		s.mu.Lock()
+		on := s.enabled[point]
+		s.mu.Unlock()
+		if !on {
+			return
+		}
+	}
+	s.park(point, nil)
+}
 
 // BeforeLock is a scheduling point that is only released while try() holds.
 func (s *Sched) BeforeLock(point string, try func() bool) { s.park(point, try) }
@@ -129,6 +165,16 @@ func (s *Sched) GoStart(name string) {
 	n := fmt.Sprintf("%s#%d", name, s.counters[name])
 	s.names[g] = n
 	s.live++
+	if s.liveBy == nil {
+		s.liveBy = map[string]int{}
+		s.maxLiveBy = map[string]int{}
+		s.baseOf = map[int64]string{}
+	}
+	s.baseOf[g] = name
+	s.liveBy[name]++
+	if s.liveBy[name] > s.maxLiveBy[name] {
+		s.maxLiveBy[name] = s.liveBy[name]
+	}
 	s.mu.Unlock()
 	s.park("start", nil)
 }
@@ -141,6 +187,8 @@ func (s *Sched) GoEnd() {
 		delete(s.names, g)
 		s.live--
 		s.ended++
+		s.liveBy[s.baseOf[g]]--
+		delete(s.baseOf, g)
 	}
 	s.mu.Unlock()
 	s.poke()
@@ -170,7 +218,7 @@ type Task struct {
 // waiter do not run concurrently).
 func (t *Task) Join() {
 	<-t.done
-	t.s.Yield("join")
+	t.s.run.Yield("join")
 }
 
 // Sleep sleeps on the simulated clock and yields on wake-up.
